@@ -61,6 +61,13 @@ def gen1(data: bytes):
         mol = rdgen.mol_from_smiles(smi)
         if mol is not None:
             case["perm"] = tp.shuffle(range(mol.GetNumAtoms()))
+    if tp.chance(90):
+        mol = rdgen.mol_from_smiles(smi)
+        if mol is not None:
+            n = mol.GetNumAtoms()
+            case["maps"] = ([i + 1 for i in range(n)] if tp.chance(100)
+                            else [1 + x for x in
+                                  tp.shuffle(range(n + 7))[:n]])
     return case
 
 
@@ -144,8 +151,24 @@ def check_organic(ctx, case):
     from stereomolgraph.rdmol2graph import RDMol2StereoMolGraph
     conv = RDMol2StereoMolGraph(stereo_complete=True, lone_pair_stereo=False,
                                 resonance=True)
+    maps = case.get("maps")
+    if maps:
+        # identifiers taken from atom-map numbers that differ from the
+        # RDKit indices; the coordinate graph is renamed the same way below
+        if len(maps) != len(elems) or len(set(maps)) != len(maps) or \
+                min(maps) < 1:
+            raise HarnessError("maps")
+        for at, v in zip(m3.GetAtoms(), maps):
+            at.SetAtomMapNum(int(v))
+        conv = RDMol2StereoMolGraph(stereo_complete=True,
+                                    lone_pair_stereo=False, resonance=True,
+                                    use_atom_map_number=True)
     with guard("C14/organic/from-annotations"):
         a = conv(m3)
+    if maps:
+        with guard("C14/organic/from-annotations/back-to-indices"):
+            a = a.relabel_atoms({int(v): i for i, v in enumerate(maps)},
+                                copy=True)
     with guard("C14/organic/from-coordinates"):
         b = StereoMolGraph.from_geometry(
             Geometry.from_xyz(Chem.MolToXYZBlock(m3)))
